@@ -888,25 +888,39 @@ func runC32(c *Ctx) {
 		})
 	}
 	for _, call := range rq.CallsTo(false, "spec/pki.MakeSubjectV2") {
-		// hashed is assigned in the subject callback from sha256 of the callback's key parameter
-		okHash := false
-		for _, lit := range rq.Lits() {
-			g := rq.Closure(lit)
-			wrote, summed := false, false
-			for _, w := range methodCalls(g, false, "Write") {
-				if g.Prov(w.Args[0]) == "lit.param#0" && strings.Contains(g.Prov(w.Fun.(*ast.SelectorExpr).X), "sha256.New()") {
-					wrote = true
-				}
-			}
-			for _, as := range assignsTo(g, types_ExprString(call.Args[1])) {
-				if strings.Contains(g.Prov(as.Rhs[0]), "sha256.New().Sum()") {
-					summed = true
-				}
-			}
-			if wrote && summed {
-				okHash = true
+		// the hash handed to MakeSubjectV2 is sha256 of the key the proof's subject callback
+		// receives: every value the argument can hold (besides the zero it starts as) comes
+		// from crypto/sha256, and every sha256 computation in the function is fed exactly the
+		// callback's key parameter (New/Write/Sum and the one-shot Sum256 are alike)
+		okHash := true
+		nsha := 0
+		for _, alt := range splitAlts(rq.Prov(call.Args[1])) {
+			switch {
+			case alt == "zero" || alt == "nil":
+			case strings.Contains(alt, "crypto/sha256.New().Sum()"), strings.Contains(alt, "crypto/sha256.Sum256()"):
+				nsha++
+			default:
+				okHash = false
 			}
 		}
+		okHash = okHash && nsha > 0
+		fed := 0
+		for _, w := range methodCalls(rq, true, "Write") {
+			g := rq.enclosing(w)
+			if strings.Contains(g.Prov(w.Fun.(*ast.SelectorExpr).X), "sha256.New()") {
+				fed++
+				if g.Prov(w.Args[0]) != "lit.param#0" {
+					okHash = false
+				}
+			}
+		}
+		for _, sc := range rq.CallsTo(true, "crypto/sha256.Sum256") {
+			fed++
+			if rq.enclosing(sc).Prov(sc.Args[0]) != "lit.param#0" {
+				okHash = false
+			}
+		}
+		okHash = okHash && fed > 0
 		c.Ob("issue-provenance", "RequestCertificate#subject-hash-of-proof-key", call.Pos(), okHash && rq.Prov(call.Args[0]) == "call:spec/chord.Random()", "the subject carries sha256 of the proof key (computed in the proof's subject callback) and a fresh id")
 	}
 	// ExtractCertificateIdentity
